@@ -85,9 +85,9 @@ CLAIMS = {
             'U/R', '§4 C15'),
     'C20': ('Scalar kernels: symmetry, value at zero distance, positivity, monotone decrease, bound by the variance with '
             'exp / pow uninterpreted + instantiated axioms; parameter validation; matrix forms equal the scalar form '
-            'entry by entry for point sets up to 2x2 (3x2 thorough) in all four argument forms (R).', 'R', '§4 C20'),
+            'entry by entry for every (kernel, argument form) pair on non-square 2x3 / 3x2 point sets and the 1x1, 1x2, 2x1 instances (3x3 thorough) (R).', 'R', '§4 C20'),
     'C16': ('Knot reproduction, in-segment line membership (division-free statement), Fill/Extrapolate/Panic behaviour on '
-            'both sides of the range, checked-variant rejections, for 2..6 knots (R).', 'R', '§4 C16'),
+            'both sides of the range, checked-variant rejections, for 2..6 knots; calls with 2 or 3 targets in any order return, position by position, what each target returns alone (3 and 4 knots; Fill and Panic modes quick, Extrapolate thorough) (R).', 'R', '§4 C16'),
     'C17': ('logistic range/monotonicity/reflection and logit inversion with exp/ln uninterpreted + instantiated axioms; '
             'softmax positivity, unit sum, order, shift invariance and the overflow obligation on every exp argument; '
             'Box-Cox formulas and domains (R). binom_coeff = exact C(N,k) for every k in [0,N] per concrete N (quick: N = 0, 1, 2, '
